@@ -23,6 +23,7 @@ package main
 import (
 	"fmt"
 	"os"
+	"path/filepath"
 	"regexp"
 	"sort"
 	"strconv"
@@ -33,6 +34,7 @@ import (
 	"github.com/bronlabs/bron-crypto/pkg/mpc/sharing"
 
 	"verif/harness/internal/drive"
+	"verif/harness/internal/drive/keys"
 	"verif/harness/internal/tamper"
 	"verif/harness/internal/vh"
 )
@@ -341,7 +343,7 @@ type runReport struct {
 	details   []string
 }
 
-const runTimeout = 120 * time.Second
+const runTimeout = 15 * time.Minute // generous: the machine may be heavily loaded; an honest 3-party DKLs23 run has been seen to take a minute
 
 func runWithTimeout(a *adapter, seed int64, label map[sharing.ID]string, hook drive.Hook) (o *outcome, status string) {
 	ch := make(chan *outcome, 1)
@@ -754,7 +756,10 @@ func opRank(m *mutation) int {
 	case tamper.OpDrop:
 		return 4
 	case tamper.OpReplay:
-		if m.roundWide || strings.HasPrefix(m.op.Src, "alt:") {
+		if m.roundWide {
+			return -1 // few strata (one per round), and the only operator that makes a CONSISTENT deviation
+		}
+		if strings.HasPrefix(m.op.Src, "alt:") {
 			return 1
 		}
 		return 5
@@ -767,7 +772,7 @@ func opRank(m *mutation) int {
 func main() {
 	a := vh.ParseArgs()
 	res := vh.NewResult("C04", a.Seed, a.Tier)
-	res.Rule = "for each protocol (3 parties 1,2,3; keys 2-of-3) one honest run records every message; a mutation = (protocol, round, sender, recipient|broadcast, leaf path, operator) applied to the CBOR tree of ONE message (uniformly for a broadcast), operators flip / zero / truncate / extend / replace (donor of the same shape from another message, party or the parallel session) / swap (two values of one message) / drop / malformed / replay (other sender's, other recipient's, parallel session's message); quick: stratified sample, at least one mutation per (protocol, round, b|u, field, leaf kind, operator) up to a fixed quota; thorough: a larger quota over all senders and recipients; non-trivial = the mutated bytes differ and were delivered"
+	res.Rule = "for each protocol (3 parties 1,2,3; keys 2-of-3) one honest run records every message; a mutation = (protocol, round, sender, recipient|broadcast, leaf path, operator) applied to the CBOR tree of ONE message (uniformly for a broadcast), operators flip / zero / truncate / extend / replace (donor of the same shape from another message, party or the parallel session) / swap (two values of one message) / drop / malformed / replay (other sender's, other recipient's, parallel session's message; the same sender's message from an ALTERNATIVE execution of the same session in which only its own randomness differs, for one message or for all its messages of a round = a consistently deviating dealer); quick: stratified sample, at least one mutation per (protocol, round, b|u, field, leaf kind, operator) up to a fixed quota; thorough: a larger quota over all senders and recipients; non-trivial = the mutated bytes differ and were delivered"
 	tier := a.Tier
 	if tier != "thorough" {
 		tier = "quick"
@@ -810,23 +815,29 @@ func main() {
 		}
 	}
 
-	if a.Replay != "" {
-		data, err := os.ReadFile(a.Replay)
-		if err != nil {
-			fmt.Fprintln(os.Stderr, err)
-			os.Exit(2)
+	states := map[string]*protoState{}
+	stateOf := func(name string) *protoState {
+		if st, ok := states[name]; ok {
+			return st
 		}
-		for _, line := range strings.Split(string(data), "\n") {
+		st := prepare(byName[name], a.Seed, res)
+		states[name] = st
+		return st
+	}
+	runCases := func(text string, idBase int, note bool) {
+		for n, line := range strings.Split(text, "\n") {
 			c, ok := strings.CutPrefix(line, "case: ")
 			if !ok {
 				continue
 			}
 			m, err := parseCase(c)
 			if err != nil || byName[m.proto] == nil {
-				res.Note("cannot replay %q: %v", c, err)
+				if note {
+					res.Note("cannot replay %q: %v", c, err)
+				}
 				continue
 			}
-			st := prepare(byName[m.proto], a.Seed, res)
+			st := stateOf(m.proto)
 			if st == nil {
 				continue
 			}
@@ -855,15 +866,29 @@ func main() {
 			}
 			classes, _ := modelClasses(a.Driver, []*mutation{m})
 			rep := evaluate(st.a, a.Seed, m, st.pool, wantOf(classes, st.a, m))
-			report(st, m, rep, 0)
-			res.Note("replay: %s || %s", rep.canon, strings.Join(rep.details, " | "))
+			report(st, m, rep, idBase+n)
+			if note {
+				res.Note("replay: %s || %s", rep.canon, strings.Join(rep.details, " | "))
+			}
 		}
+	}
+	if a.Replay != "" {
+		data, err := os.ReadFile(a.Replay)
+		if err != nil {
+			fmt.Fprintln(os.Stderr, err)
+			os.Exit(2)
+		}
+		runCases(string(data), 0, true)
 		res.Write(a.Out)
 		return
 	}
+	// the corpus (regression cases of earlier findings) runs first
+	if data, err := os.ReadFile(filepath.Join(keys.Root(), "corpus", "c04", "cases.txt")); err == nil {
+		runCases(string(data), 100000, false)
+	}
 
 	for _, ad := range ads {
-		st := prepare(ad, a.Seed, res)
+		st := stateOf(ad.name)
 		if st == nil {
 			continue
 		}
